@@ -928,9 +928,8 @@ def run(tier, replay):
             c.bump("resumes_between_slow_steps")
             if bad:
                 c.violation(bad[0], bad[1], files, payload={"config": config(case), "K": case["Ks"], "tsf": case["tsf"]})
-            else:
-                c.nontrivial("resume_between_slow_steps|" + K)
-            continue
+                continue
+            c.nontrivial("resume_between_slow_steps|" + K)      # and the whole history goes through the general analysis below
         errs = [e for o in outs for e in o["ev"] if e["ev"] == "step" and (e.get("err") or e.get("errs"))]
         if errs:
             e = errs[0]
@@ -997,6 +996,11 @@ def run(tier, replay):
                 ok = (x == rx and ex == rex)
             else:
                 ok = close(x, rx, 1e-10, 1.0) and close(ex, rex, 1e-10, 1.0)
+                if not ok and t > Kk + 20 * a["tsf"]:
+                    # the state file carries 14 digits; walls and feedback biases amplify that difference with time.
+                    # A double (or lost) advance shows at the first update after the resume, which is what is judged.
+                    c.bump("twin_restart_late_divergence_not_judged")
+                    break
             if not ok:
                 bad = "step %d%s: coordinate (%.17g -> %.17g) in the segmented run, (%.17g -> %.17g) uninterrupted; boundary at step %s" % (
                     t, " (repeated)" if rep else "", x, ex, rx, rex, a["Ks"])
